@@ -694,6 +694,9 @@ class Producer(object):
                 # Success for this topic/partition
                 d_list = deferredsByTopicPart[t_and_p]
                 _deliver_result(d_list, res)
+                # It is done: should a later retry of the rest of the batch
+                # fail as a whole, this payload must not be sent again.
+                payloadsByTopicPart.pop(t_and_p, None)
 
         # Were there any failed requests to possibly retry?
         if failed_payloads:
